@@ -325,6 +325,25 @@ def check_header_via_web(header):
     return fails
 
 
+def _asgi_get(app, path, query_string, headers):
+    import asyncio
+
+    out = {}
+    scope = {"type": "http", "asgi": {"version": "3.0"}, "http_version": "1.1", "method": "GET", "scheme": "http", "path": path, "raw_path": path.encode(),
+             "query_string": query_string, "headers": [(b"host", b"testserver")] + list(headers), "client": ("testclient", 50000), "server": ("testserver", 80), "root_path": ""}
+
+    async def receive():
+        return {"type": "http.request", "body": b"", "more_body": False}
+
+    async def send(msg):
+        if msg["type"] == "http.response.start":
+            out["status"] = msg["status"]
+            out["headers"] = {k.decode().lower(): v.decode() for k, v in msg["headers"]}
+
+    asyncio.run(app(scope, receive, send))
+    return out["status"], (out["headers"].get("content-type") or "").split(";")[0].strip()
+
+
 def check_no_accept_header():
     """A request without any Accept header gets the default (SPARQL XML) from both frameworks."""
     import asyncio
@@ -337,6 +356,17 @@ def check_no_accept_header():
     got = (r.status_code, (r.headers.get("Content-Type") or "").split(";")[0].strip())
     if got != (200, DEFAULT):
         fails.append(("accept/no-header/flask", f"GET /sparql without Accept header: {got}, expected (200, {DEFAULT!r})"))
+    # the Accept header sent as two field lines is the same header as the comma-joined one (RFC 7230 3.2.2)
+    for fields in (["text/html", "application/json;q=0.9"], ["text/csv;q=0.2", "application/sparql-results+json"], ["application/xml;q=0.1", "text/csv"]):
+        want = reference_negotiation(", ".join(fields))
+        r = flask_client.get("/sparql", query_string={"query": q}, headers=[("Accept", f_) for f_ in fields])
+        ct = (r.headers.get("Content-Type") or "").split(";")[0].strip()
+        if ct not in want:
+            fails.append(("accept/several-field-lines/flask", f"Accept sent as the field lines {fields}: Content-Type {ct!r}, acceptable {sorted(want)}"))
+        if fast_client is not None:
+            ct = _asgi_get(fast_client.app, "/sparql", urlencode({"query": q}).encode(), [(b"accept", f_.encode()) for f_ in fields])[1]
+            if ct not in want:
+                fails.append(("accept/several-field-lines/fastapi", f"Accept sent as the field lines {fields}: Content-Type {ct!r}, acceptable {sorted(want)}"))
     if fast_client is not None:
         out = {}
         scope = {"type": "http", "asgi": {"version": "3.0"}, "http_version": "1.1", "method": "GET", "scheme": "http", "path": "/sparql", "raw_path": b"/sparql",
